@@ -21,15 +21,14 @@ impl FixtureDatabase {
         // Cache for resolved definitions
         let mut resolution_cache: HashMap<(PathBuf, String), Option<PathBuf>> = HashMap::new();
 
-        // Pre-compute fixture definition lines per file
-        let mut fixture_def_lines: HashMap<PathBuf, HashMap<usize, FixtureDefinition>> =
-            HashMap::new();
+        // Pre-compute the fixture definitions of every file
+        let mut fixture_defs_by_file: HashMap<PathBuf, Vec<FixtureDefinition>> = HashMap::new();
         for entry in self.definitions.iter() {
             for def in entry.value().iter() {
-                fixture_def_lines
+                fixture_defs_by_file
                     .entry(def.file_path.clone())
                     .or_default()
-                    .insert(def.line, def.clone());
+                    .push(def.clone());
             }
         }
 
@@ -37,11 +36,17 @@ impl FixtureDatabase {
         for entry in self.usages.iter() {
             let file_path = entry.key();
             let usages = entry.value();
-            let file_def_lines = fixture_def_lines.get(file_path);
+            let file_defs = fixture_defs_by_file.get(file_path);
 
             for usage in usages.iter() {
-                let fixture_def_at_line = file_def_lines
-                    .and_then(|lines| lines.get(&usage.line))
+                // The fixture whose function spans the usage's line: its `def` line or, for a
+                // multi-line signature, a continuation line (as go-to-definition and
+                // find-references see it).
+                let fixture_def_at_line = file_defs
+                    .and_then(|defs| {
+                        defs.iter()
+                            .find(|d| d.line <= usage.line && usage.line <= d.end_line)
+                    })
                     .cloned();
 
                 let is_self_referencing = fixture_def_at_line
